@@ -138,6 +138,16 @@ pub const VALID: &[(&str, Option<i64>)] = &[
     ("{ selfc = 5; d := selfc; d = selfc; t := *selfc; if x: mut any = t { if x == d { 1 } else { 0 } } else { 0 } }", Some(1)),
     ("{ selfc = 5; a2 := [selfc]; a2[0] = selfc; t := *a2[0]; if x: mut any = t { if x == selfc { 1 } else { 0 } } else { 0 } }", Some(1)),
     ("{ st := (p: mut any, q: any) -> int { p = q; return 0 }; selfc = 5; st(selfc, selfc); t := *selfc; if x: mut any = t { if x == selfc { 1 } else { 0 } } else { 0 } }", Some(1)),
+    // a name bound by if-set / while-set is local to the construct: an outer binding of that name
+    // denotes the same cell afterwards
+    ("{ a := mut 0; b := mut 100; x := a; if x: mut int = b { x += 1 }; x += 10; if x == a { *a * 1000 + *b } else { 0 - 1 } }", Some(10101)),
+    ("{ a := mut 0; b := mut 3; x := a; while x: mut int = b { x -= 1; if *x < 1 { break } }; x += 7; if x == a { *a * 10 + *b } else { 0 - 1 } }", Some(70)),
+    ("{ w := (x: mut int, y: mut int) -> int { if x: mut int = y { x += 1 }; x += 10; return *x }; a := mut 0; b := mut 100; w(a, b) * 1000 + *b }", Some(10101)),
+    // the right-hand side of a compound assignment is always evaluated, then the content is read
+    ("{ ok := mut false; r := (ok &= (ok = true)); x := if r { 2 } else { 0 }; y := if *ok { 1 } else { 0 }; x + y }", Some(3)),
+    ("{ ok := mut true; r := (ok |= (ok = false)); x := if r { 2 } else { 0 }; y := if *ok { 1 } else { 0 }; x + y }", Some(0)),
+    ("{ n := mut 0; ok := mut false; bump := () -> bool { n += 1; return true }; ok &= bump(); ok |= bump(); ok |= bump(); ok &= bump(); *n }", Some(4)),
+    ("{ n := mut 0; z := mut 0; bump := () -> int { n += 1; return 0 }; z *= bump(); z &= bump(); z <<= bump(); *n }", Some(3)),
     ("ps = struct{x := 5, y := 6}", None),
     ("pt = (2, \"t\")", None),
     ("pu = [\"a\", 2]", None),
@@ -838,6 +848,11 @@ pub fn gen_op(rng: &mut Rng, cfg: &GenCfg, unique: &mut i64) -> Op {
 /// Assignments the checker must refuse: each would let a value outside the declared content type
 /// into a cell (directly, or through a `mut` subtyping hole).
 pub const ATTACKS: &[&str] = &[
+    // a callee whose static type is a union of functions with different cell parameters
+    "{ f := (c: mut int) -> int { return 1 }; g := (c: mut (int|float)) -> int { c = 2.5; return 2 }; sel := mut false; h := if *sel { f } else { g }; h(c0) }",
+    "{ f := (c: mut int) -> int { return 1 }; g := (c: mut (int|float)) -> int { c = 2.5; return 2 }; fs := [f, g]; i := mut 1; fs[*i](c0) }",
+    "{ f := (c: mut [int]) -> int { return 1 }; g := (c: mut [int|string]) -> int { c += [\"s\"]; return 2 }; sel := mut false; h := if *sel { f } else { g }; h(c4) }",
+    "{ f := (c: mut int) -> int { return 1 }; g := (c: mut any) -> int { c = \"s\"; return 2 }; pick := (k: bool) -> ((mut int) -> int)|((mut any) -> int) { if k { return f } return g }; pick(false)(c0) }",
     "c0 = 0.5",
     "c0 = \"x\"",
     "c0 += 0.5",
